@@ -164,8 +164,10 @@ def run(facts, res):
             if not bcfg.reaches(0, rb_, avoid=set(ins_blocks)):
                 continue
             present = False
+            kroot = _plain_root(arg_term(b, t, 1, 12)) if t.callee.name in ("insert", "entry") and len(t.args) > 1 else None
             for l in lits_of(b, rb_, facts):
-                if l.kind == "call" and callee_name(l.term) in ("contains_key", "contains") and l.truth is True and "revisions" in field_path(l.term[2][0])[0]:
+                if l.kind == "call" and callee_name(l.term) in ("contains_key", "contains") and l.truth is True and "revisions" in field_path(l.term[2][0])[0] and \
+                        (kroot is None or _plain_root(l.term[2][1]) == kroot):     # presence of *this* revision, not of some other key
                     present = True
                 if l.kind == "variant" and l.variants == {"Occupied"}:
                     present = True
@@ -407,11 +409,22 @@ def run(facts, res):
                     x[0] == "field" and x[2] == "deltas" for x in walk(s.args[0] if s.args else ("cut",), False)):
                 continue
             n4c += 1
-            ls = list(s.lits)
-            if s.body is b:
-                # only what is decided per item: the literals from the loop's own `next() is Some` on
-                idx = [i for i, l in enumerate(ls) if l.kind == "variant" and l.variants == {"Some"} and callee_name(peel(l.term)) == "next"]
-                ls = [l for l in ls[idx[-1]:] if not l.implied] if idx else [l for l in ls if not l.implied]
+            from .. import iters as _it4
+
+            def per_item(body_, blk_):
+                """the literals decided per listed item: those inside the listing loop (loop form); all of a closure's own (pipeline
+                form: the closure runs once per item, its literals include the adaptor chain's filters)"""
+                l0 = list(lits_of(body_, blk_, facts))
+                hd = [peel(l.term)[3] for l in l0 if l.kind == "variant" and l.variants == {"Some"} and callee_name(peel(l.term)) == "next"]
+                if hd:
+                    inside = _it4.loop_body_blocks(body_, hd[-1]) | {hd[-1]}
+                    return [l for l in l0 if not l.implied and l.block in inside]
+                if body_.kind == "closure":
+                    return [l for l in l0 if not l.implied]
+                return []
+            ls = per_item(s.body, s.block)
+            if s.body is not b and s.body.kind != "closure":
+                ls += per_item(s.outer_body, s.outer_block)     # a helper called from inside the loop
             extra = [repr(l) for l in unaccepted(ls, _reg_guard_ok)]
             res.instance("L4", "%s: a listed block is registered under per-item success / absence only: %s" % (name, not extra), s.loc())
             if extra:
@@ -478,18 +491,10 @@ def run(facts, res):
     # L5c: no successful return of meld bypasses a copy pass (an early `return Ok(..)` taken when the peer's heads are already
     # known would leave packs or blocks of an interrupted earlier meld uncopied for good)
     if m is not None:
-        from ..common import inlined_sites, assigns_of_return
+        from ..common import pass_anchors, bypassing_returns
         mcfg = cfg_of(m)
-        hdrs = sorted(mcfg.loop_headers())
-        anchors = {}
-        for s in inlined_sites(facts, m, lambda t: t.callee is not None and t.callee.name == R.name("raw_write"), depth=2):
-            a = s.outer_block
-            outer = [h for h in hdrs if mcfg.dominates(h, a) and mcfg.reaches(a, h)]
-            if outer:
-                a = [h for h in outer if all(mcfg.dominates(h, h2) for h2 in outer)][0] if any(
-                    all(mcfg.dominates(h, h2) for h2 in outer) for h in outer) else outer[0]
-            anchors[a] = s
-        oks = [eb for eb, st in assigns_of_return(m, "Ok")]
+        anchors = pass_anchors(facts, m, lambda t: t.callee is not None and t.callee.name == R.name("raw_write"), depth=2)
+        _, oks = bypassing_returns(m, anchors)
         # a return taken because the peer *is* this replica (`std::ptr::eq(self, other)`) has nothing to copy
         own = [o for o in oks if any(l.kind == "call" and l.truth is True and l.term[4] is not None and l.term[4].path.endswith("ptr::eq")
                                      for l in lits_of(m, o, facts))]
@@ -512,6 +517,22 @@ def run(facts, res):
 
     # ------------------------------------------------------------------ L6 memoised view state
     _check_memos(facts, res)
+
+
+def _plain_root(t):
+    """the parameter / local a term is a plain view of (ref / deref / clone), else the term's head"""
+    hops = 0
+    while hops < 30:
+        hops += 1
+        if t[0] in ("ref", "deref", "cast"):
+            t = t[1]
+        elif t[0] == "var" and t[3][0] in ("ref", "deref", "cast", "var", "param"):
+            t = t[3]
+        elif t[0] == "call" and callee_name(t) in ("clone", "borrow", "as_ref", "deref") and t[2]:
+            t = t[2][0]
+        else:
+            break
+    return (t[0], t[1]) if t[0] in ("param", "var") else (t[0], callee_name(t) if t[0] == "call" else None)
 
 
 TREE_STATE = ("get_leafs", "get_winner")
